@@ -627,6 +627,16 @@ def main(tier):
             for md in mids:
                 for d in (2, 3):
                     nested += [("//", md, ("int", d)), ("floor", ("/", md, ("int", d))), ("ceil", ("/", md, ("int", d))), ("%", md, ("int", d))]
+    # a modulo of a product that contains another modulo, the other factor symbolic, the two moduli equal or different
+    modprod = []
+    for X in (N, ("+", N, ("int", 1))):
+        for A in (("int", 3), ("sym", "M")):
+            for Y in (N, ("sym", "M")):
+                for B in (("int", 5), ("int", 3)):
+                    modprod += [("%", ("*", ("%", X, A), Y), B), ("%", ("*", Y, ("%", X, A)), B)]
+    ntrees += len(modprod)
+    for i in range(0, len(modprod), 4):
+        tasks.append((modprod[i:i + 4], syms, (1, 2, 3, 5, 8), True))
     ntrees += len(nested)
     for i in range(0, len(nested), 16):
         tasks.append((nested[i:i + 16], syms, tuple(range(1, 14)), True))
